@@ -934,6 +934,7 @@ class Check:
         self.assumptions = []
         self.notes = []
         self.checker_errors = []
+        self.selftest = None    # thorough tier: outcome of the committed must-fire changes on a scratch copy of this tree
 
     def rule(self, rid, text):
         self.rules[rid] = text
@@ -965,12 +966,13 @@ class Check:
         viol = [o for o in self.obligations if not o["ok"]]
         new = [o for o in viol if o["key"] not in known_keys]
         kf = [o for o in viol if o["key"] in known_keys]
-        os.makedirs(os.path.join(VERIF, "replay", self.pid), exist_ok=True)
+        replay_root = os.environ.get("VERIF_REPLAY_DIR") or os.path.join(VERIF, "replay")
+        os.makedirs(os.path.join(replay_root, self.pid), exist_ok=True)
         for o in kf:
             print(f"KNOWN-FINDING: property={self.pid} {o['key']}: {known_keys[o['key']].get('what', o['what'])}")
         for o in new:
             safe = re.sub(r"[^A-Za-z0-9_.-]+", "_", o["key"])[:120]
-            rp = os.path.join(VERIF, "replay", self.pid, safe + ".json")
+            rp = os.path.join(replay_root, self.pid, safe + ".json")
             with open(rp, "w") as fh:
                 json.dump({"property": self.pid, "rule": o["rule"], "rule_text": self.rules.get(o["rule"], ""), "instance": o["key"],
                            "what": o["what"], "location": o["loc"], "detail": o["detail"]}, fh, indent=1)
@@ -1002,6 +1004,9 @@ class Check:
                 "per_rule_instances": dict(self.counts),
                 "samples": samples[:40],
                 "exhaustive": True,
+                **({"selftest": {"what": "committed breaking changes applied to a scratch copy of this tree; each must be reported (thorough tier only; does not affect the verdict)",
+                             "applied": sum(1 for x in self.selftest if x["applied"]), "fired": sum(1 for x in self.selftest if x["fired"]),
+                             "cases": self.selftest}} if self.selftest is not None else {}),
                 "checker_cmd": f"./check {self.pid} --tier {self.tier}",
                 "trusted_base": ["rustc MIR construction and callee resolution", "syn parser", "-Zunpretty=expanded", "reviewed tables under /verif/tables"],
             },
@@ -1009,8 +1014,10 @@ class Check:
             "wall_s": round(wall, 2),
             "violations": len(new),
         }
-        os.makedirs(os.path.join(VERIF, "evidence"), exist_ok=True)
-        with open(os.path.join(VERIF, "evidence", self.pid + ".json"), "w") as fh:
+        # the mutant tools (tools/mut.sh, tools/selftest.sh) analyse other trees: they must not overwrite the evidence of /repo
+        evdir = os.environ.get("VERIF_EVIDENCE_DIR") or os.path.join(VERIF, "evidence")
+        os.makedirs(evdir, exist_ok=True)
+        with open(os.path.join(evdir, self.pid + ".json"), "w") as fh:
             json.dump(ev, fh, indent=1, ensure_ascii=False)
         status = "OK" if not new else "FAIL"
         print(f"{self.pid} {status}: {n_ok}/{n_ob} obligations discharged, {len(kf)} known finding(s), {len(new)} violation(s); "
